@@ -12,8 +12,8 @@ Require Import BFL.C09_Model.
 Import ListNotations.
 
 Definition teardown_old (c : config) : option config :=
-  let '(mk p r s t n w tr) := c in
-  Some (mk p r s true n w (ECmd Teardown :: tr)).
+  let '(mk p r s t n w d tr) := c in
+  Some (mk p r s true n w d (ECmd Teardown :: tr)).
 
 Definition step_old : config -> move -> option config := step_with teardown_old.
 Definition reachable_old : config -> Prop := reachable_with teardown_old.
@@ -24,30 +24,31 @@ Fixpoint run_moves_old (c : config) (ms : list move) : option config :=
   | m :: ms' => match step_old c m with Some c' => run_moves_old c' ms' | None => None end
   end.
 
-(* moves that deliver a wake-up: run(), reboot() (they notify) and a spurious wake-up *)
+(* moves that deliver a wake-up: run(), reboot() (they notify) and a spurious wake-up
+   (MRebootEnd is enabled only after MCmd Reboot) *)
 Definition wakes (m : move) : bool :=
   match m with MCmd Run | MCmd Reboot | MSpurious => true | _ => false end.
 
 (* boot(); the thread runs until it blocks in cv_run_.wait; teardown() *)
-Definition hang : config := mk PSleep false false true 0 false [ECmd Teardown].
+Definition hang : config := mk PSleep false false true 0 false false [ECmd Teardown].
 
 Lemma hang_reachable : reachable_old hang.
 Proof.
-  apply (R_step _ (mk PSleep false false false 0 false []) (MCmd Teardown)); [|reflexivity].
-  apply (R_step _ (mk PHeld false false false 0 false []) (MThread true)); [|reflexivity].
-  apply (R_step _ (mk PLock false false false 0 false []) (MThread true)); [|reflexivity].
-  apply (R_step _ (mk PZero false false false 0 false []) (MThread true)); [|reflexivity].
+  apply (R_step _ (mk PSleep false false false 0 false false []) (MCmd Teardown)); [|reflexivity].
+  apply (R_step _ (mk PHeld false false false 0 false false []) (MThread true)); [|reflexivity].
+  apply (R_step _ (mk PLock false false false 0 false false []) (MThread true)); [|reflexivity].
+  apply (R_step _ (mk PZero false false false 0 false false []) (MThread true)); [|reflexivity].
   apply (R_step _ init (MThread true)); [|reflexivity].
   constructor.
 Qed.
 
 Definition asleep_unwoken (c : config) : Prop :=
-  c_pc c = PSleep /\ c_woken c = false /\ c_td c = true.
+  c_pc c = PSleep /\ c_woken c = false /\ c_td c = true /\ c_mid c = false.
 
 Lemma asleep_stays c m c' : asleep_unwoken c -> wakes m = false -> step_old c m = Some c' -> asleep_unwoken c'.
 Proof.
-  destruct c as [p r s t n w tr]. intros (P & W & T) Hm H. simpl in *. subst.
-  destruct m as [b| |k]; try discriminate; simpl in H; try discriminate.
+  destruct c as [p r s t n w d tr]. intros (P & W & T & M) Hm H. simpl in *. subst.
+  destruct m as [b| |k|]; try discriminate; simpl in H; try discriminate.
   destruct k; simpl in *; try discriminate; injection H as <-; repeat split.
 Qed.
 
@@ -64,7 +65,7 @@ Qed.
 Lemma asleep_disabled c : asleep_unwoken c ->
   (forall b, step_old c (MThread b) = None) /\ step_old c (MCmd Wait) = None.
 Proof.
-  destruct c as [p r s t n w tr]. intros (P & W & T). simpl in *. subst. split; reflexivity.
+  destruct c as [p r s t n w d tr]. intros (P & W & T & M). simpl in *. subst. split; reflexivity.
 Qed.
 
 (* teardown requested, thread not exited, and — whatever reset(), teardown(),
@@ -81,3 +82,36 @@ Proof.
   split; [destruct A as (P & _); rewrite P; discriminate|].
   apply asleep_disabled; auto.
 Qed.
+
+(* ------------------------------------------------------------------ *)
+(* Why the ORDER of the two stores of reboot() matters (the transcription check of
+   props/C09.py fails closed on it): with  run_ = false; reset_ = true;  the thread can read
+   run_ = false and then reset_ = false in its unlocked do-while condition and TERMINATE
+   although neither teardown was requested nor run_condition() answered false. *)
+Definition step_swapped (c : config) (m : move) : option config :=
+  match m with
+  | MCmd Reboot =>
+      let '(mk p r s t n w d tr) := c in
+      if mutex_free p && negb d then Some (mk p false s t n w true (ECmd Reboot :: tr)) else None
+  | MRebootEnd =>
+      let '(mk p r s t n w d tr) := c in
+      if d then Some (mk p r true t n (notified p w) false tr) else None
+  | _ => step c m
+  end.
+
+Fixpoint run_moves_swapped (c : config) (ms : list move) : option config :=
+  match ms with
+  | [] => Some c
+  | m :: ms' => match step_swapped c m with Some c' => run_moves_swapped c' ms' | None => None end
+  end.
+
+Definition swapped_schedule : list move :=
+  [MCmd Run; MThread true; MThread true; MThread true; MThread true; MThread true; MThread true; (* PC1a *)
+   MThread false; MThread true; (* PC2a *) MThread true; (* PC2b *)
+   MCmd Reboot; MThread true; MThread true; (* PFinal *) MThread true; MRebootEnd].
+
+Lemma reboot_store_order_matters :
+  exists c, run_moves_swapped init swapped_schedule = Some c
+    /\ c_trace c = [EExit; ECmd Reboot; ERc true; ERc false; EInit; ECmd Run]
+    /\ c_td c = false.
+Proof. eexists. vm_compute. repeat split; reflexivity. Qed.
